@@ -2065,6 +2065,8 @@ class Interp:
             items = list(v.items)
             if len(items) <= 1 or self.w.set_order == "insertion":
                 return items
+            if self.w.set_order == "reversed":
+                return items[::-1]
             if len(items) > 4:
                 raise Unknown("iteration order of a set with more than 4 elements")
             perms = list(itertools.permutations(range(len(items))))
